@@ -112,6 +112,8 @@ def moment_solve(cfg: dict, moments):
         off = op.copy()
         for k in range(g):
             off[:, k, :, k] = 0
+        if not np.all(np.isfinite(op)):
+            raise FloatingPointError("probe: non-finite entries in the moment-space operator")
         if np.abs(off).max() != 0.0:
             raise RuntimeError("probe: operator not diagonal in the grid index")
     return out
